@@ -78,8 +78,24 @@ def check(ctx):
                 ctx.add(f"2.{m}-records-in-changes", "SIBLING", touched_changes, f"{m} records its effect in self.changes", sites=[u.q], site_key=m)
                 ctx.add(f"2.{m}-parent-read-only", "SIBLING", all(mm == "get" for _, mm in storage_calls) and (not storage_calls or m in ("replace", "take")),
                         f"{m} touches the parent storage only by {sorted(set(mm for _, mm in storage_calls))}", sites=[str(x) for x in storage_calls], site_key=m + ":parent")
-        if meths is not None:
-            pass
+        # every mutation leaves a pending operation of the right kind for its key on every successful path, and never
+        # un-records one: a pending entry is what shadows the parent for the reads of clause 1 and what commit applies
+        WOP = "fuel_core_storage::kv_store::WriteOperation"
+        want = {"put": "Insert", "replace": "Insert", "write": "Insert", "take": "Remove", "delete": "Remove"}
+        REC = ("alloc::collections::btree::map::BTreeMap::insert", "alloc::collections::btree::map::entry::VacantEntry::insert",
+               "alloc::collections::btree::map::entry::OccupiedEntry::insert")
+        for m, var in want.items():
+            b = F.unit(f"<{IMT} as {KVM}>::{m}").root
+            o = Origins(b, 0)
+            rec = [c for c in b.calls_to(*REC) if c.bb in b.live]
+            good = [c for c in rec if atom_match(o.atoms(c.args[-1]), f"agg:{WOP}::{var}")]
+            wrong = [c for c in rec if c not in good]
+            ctx.expect_sites(f"2.{m}-records-only-{var}", wrong, exactly=0, what=f"pending operation of another kind than {var} recorded by {m}")
+            ctx.must_pass(f"2.{m}-records-on-every-path", b, good, detail=f"every successful return of {m} has recorded WriteOperation::{var} for the key")
+            unrec = [c for c in b.calls if c.bb in b.live and c.path.startswith("alloc::collections::btree::map::") and
+                     c.name in ("remove", "remove_entry", "pop_first", "pop_last", "clear", "retain", "take")]
+            unrec += [c for c in b.calls if c.bb in b.live and c.path.startswith("std::collections::hash::map::") and c.name in ("remove", "remove_entry", "clear", "retain")]
+            ctx.expect_sites(f"2.{m}-never-unrecords", unrec, exactly=0, what=f"removal of a pending entry from the change set in {m} (the parent value would become visible again)")
 
     with ctx.clause("3.commit"):
         MOD = f"{T}::Modifiable::commit_changes"
